@@ -481,16 +481,19 @@ class FillRequest(object):
                 try:
                     val = buffer_in[nfills]
                 except IndexError:
-                    if self._yield_on_remainder:
+                    # the incomplete slice remains in the element
+                    del buffer_in[:]
+                    self._n_count += nfills
+                    if self._yield_on_remainder and self._n_count:
                         for val in self._el_request():
                             yield val
+                        if self._reset:
+                            self._el_reset()
+                        self._n_count = 0
                     break
                 else:
                     self._el_fill(val)
                     nfills += 1
-
-        if self._reset:
-            self._el_reset()
 
     def reset(self):
         """Reset *el* (ignoring the initialization setting)."""
